@@ -89,8 +89,12 @@ struct LookupStats {
 }
 
 fn lookups(sm: &SourceMap, pos: &[(u32, u32)], extra: &[(u32, u32)], stage: &str, obs: &mut Obs) -> Result<LookupStats, String> {
+    lookups_via(sm, &DecodedMap::Regular(sm.clone()), pos, extra, stage, obs)
+}
+
+/// `as_decoded` wraps (a clone of) `sm`: the `DecodedMap`-level lookup must answer like the map itself.
+fn lookups_via(sm: &SourceMap, as_decoded: &DecodedMap, pos: &[(u32, u32)], extra: &[(u32, u32)], stage: &str, obs: &mut Obs) -> Result<LookupStats, String> {
     let mut st = LookupStats { exact_dup: false, between: false, before_first: false, later_line: false };
-    let as_decoded = DecodedMap::Regular(sm.clone());
     for q in queries_for(pos, extra) {
         obs.inner_evals += 1;
         let want = ref_lookup_index(pos, q);
@@ -153,6 +157,26 @@ fn check(c: &Case, obs: &mut Obs) -> Verdict {
     });
     let mut stage = String::from("initial");
     let mut nontrivial = false;
+    // the same map as a Hermes/Metro map (a document with x_facebook_sources decodes as one, however
+    // many lines it has): lookups through SourceMapHermes and through DecodedMap::Hermes
+    if c.base.tokens.len() <= 200 {
+        let mut twin = c.base.clone();
+        twin.route = Route::Doc;
+        let n = twin.sources.len();
+        match (MHermes { map: twin, fb: vec![None; n] }).build() {
+            Ok(h) => {
+                let pos = match invariant(&h, "as a Hermes map") {
+                    Ok(p) => p,
+                    Err(e) => return Verdict::Fail(e),
+                };
+                if let Err(e) = lookups_via(&h, &DecodedMap::Hermes(h.clone()), &pos, &c.random_queries, "as a Hermes map", obs) {
+                    return Verdict::Fail(e);
+                }
+                obs.class("also-as-hermes-map");
+            }
+            Err(e) => return Verdict::Fail(format!("the model does not decode as a Hermes map: {e}")),
+        }
+    }
     for step in 0..=c.ops.len() {
         let pos = match invariant(&sm, &stage) {
             Ok(p) => p,
